@@ -783,3 +783,31 @@ Proof.
   intros Hr Hg. destruct (rep_get s d id f Hr Hg) as [H _]. eexists. split; [exact H|].
   clear. induction (d_data f) as [|e es IH]; cbn [file_bytes data_size]; [reflexivity|]. rewrite blen_app, enc_entry_size, IH. reflexivity.
 Qed.
+
+(* ---------- a failed call: the directory it leaves behind ---------- *)
+(* A call that fails has no effect, and the error paths of set / delete / reopen / merge issue no further
+   calls: the directory after operation [o] failed at its (n+1)-th call is the file system after the first
+   [n] calls of [o].  Restarting from there recovers every earlier operation, and [o] entirely or not. *)
+Lemma fs_run_prefix : forall t s s' n, fs_run s t = Some s' -> exists sn, fs_run s (firstn n t) = Some sn.
+Proof.
+  induction t as [|c t IH]; intros s s' n H; [rewrite firstn_nil; cbn; eauto|]. destruct n as [|n]; [cbn; eauto|].
+  cbn [firstn fs_run] in *. destruct (fs_step s c) as [s1|]; [|discriminate]. eapply IH; exact H.
+Qed.
+
+Theorem fault_then_restart c ops1 o s0 n :
+  run_ready c init (ops1 ++ [o]) -> rep s0 (s_dir init) -> trace_wf (snd (run c init (ops1 ++ [o]))) ->
+  let s1 := fst (fst (run c init ops1)) in
+  exists f1 fn, fs_run s0 (snd (run c init ops1)) = Some f1 /\ fs_run f1 (firstn n (snd (step c s1 o))) = Some fn /\
+    (img_ok fn (abs s1) \/ img_ok fn (abs (fst (fst (step c s1 o))))).
+Proof.
+  intros Hready Hrep Hwf. cbv zeta.
+  destruct (crash_during_op c ops1 o s0 Hready Hrep Hwf) as (f1 & Hrun & Himgs). cbv zeta in Himgs.
+  (* the whole trace of [o] runs from f1 *)
+  destruct (run_ready_app c ops1 init [o] Hready) as [Hr1 Hr2].
+  pose proof (bytes_on_disk c (ops1 ++ [o]) s0 Hready Hrep Hwf) as (s2 & Hrun2 & _).
+  rewrite run_app in Hrun2. destruct (run c init ops1) as [[s1 r1] t1] eqn:E1. cbn [fst snd] in *.
+  cbn [run] in Hrun2. destruct (step c s1 o) as [[s2' r2] t2] eqn:E2. cbn [snd fst] in *. rewrite app_nil_r, fs_run_app, Hrun in Hrun2.
+  destruct (fs_run_prefix t2 f1 s2 n Hrun2) as (fn & Hfn).
+  exists f1, fn. split; [exact Hrun|]. split; [exact Hfn|]. apply Himgs.
+  apply (img_boundary _ _ _ (firstn n t2) (skipn n t2)); [symmetry; apply firstn_skipn|exact Hfn].
+Qed.
